@@ -44,6 +44,9 @@ PINNED = {
         [("setenv", "absA"), ("conv", "local", "main"), ("setenv", "colonB"), ("wait", 1250), ("conv", "local", "main"), ("setenv", "absA"), ("wait", 1250), ("conv", "local", "main"), ("conv", "utc", "new")],
         [("setenv", "absA"), ("conv", "utc", "main"), ("setenv", "colonB"), ("wait", 1000), ("conv", "utc", "main"), ("wait", 200), ("conv", "local", "main"), ("wait", 1250), ("conv", "local", "main")],
         [("setenv", "rule"), ("conv", "local", "main"), ("setenv", "name"), ("conv", "local", "new"), ("wait", 200), ("conv", "utc", "main"), ("wait", 1250), ("conv", "utc", "main"), ("setenv", "badfile"), ("conv", "utc", "new")],
+        # valid X -> unusable value -> the very same X again, one second apart each: the return to X must be honoured
+        [("setenv", "rule"), ("conv", "utc", "main"), ("wait", 1250), ("setenv", "garbage"), ("conv", "utc", "main"), ("wait", 1250), ("setenv", "rule"), ("wait", 1250), ("conv", "utc", "main"), ("conv", "local", "main")],
+        [("setenv", "name"), ("conv", "local", "main"), ("wait", 1250), ("setenv", "colonMissing"), ("conv", "local", "main"), ("wait", 1250), ("setenv", "name"), ("wait", 1250), ("conv", "local", "main"), ("conv", "utc", "new")],
         # every kind of TZ value once, each read by a fresh thread (the resolution order of the statement, one clause at a time)
         [("setenv", "colonName"), ("conv", "utc", "new"), ("setenv", "name"), ("conv", "local", "new"), ("setenv", "fixedF"), ("conv", "utc", "new"), ("setenv", "colonB"), ("conv", "local", "new"),
          ("setenv", "absA"), ("conv", "utc", "new"), ("setenv", "rule"), ("conv", "utc", "new")],
